@@ -890,8 +890,19 @@ class Executor:
     def stmt(self, fr, st):
         k = st[0]
         if k == 'assign':
-            v = self.rvalue(fr, st[2])
+            rv = st[2]
             pl = st[1]
+            if rv[0] == 'adt' and '::' not in rv[1] and not pl.proj:
+                # bare variant name (trimmed path): take the enum from the destination's declared type
+                ty = fr.fn.local_types.get(pl.local)
+                tb = type_base(ty) if ty else None
+                vs = self.src.enum_variants(tb, ty) if tb else None
+                if vs is not None and any(n == rv[1] for n, _ in vs):
+                    idx = dict(vs)[rv[1]]
+                    v = Enum(strip_generics(ty), rv[1], idx, [self.operand(fr, o) for _, o in rv[2]])
+                    fr.locals[pl.local] = v
+                    return
+            v = self.rvalue(fr, st[2])
             if not pl.proj:
                 fr.locals[pl.local] = v
             else:
